@@ -8,9 +8,9 @@ ok=0; bad=0
 for d in seeded/*/; do
   id=$(basename $d)
   prop=$(python3 -c "import json;m=json.load(open('$d/meta.json'));print((m.get('detected_by') or [m['breaks_property']])[0])")
-  (cd $R && git checkout -q -- . && git apply /verif/$d/patch.diff) || { echo "$id APPLY-FAIL"; bad=$((bad+1)); continue; }
+  (cd $R && git checkout -q -- . && git clean -fdq && git apply /verif/$d/patch.diff) || { echo "$id APPLY-FAIL"; bad=$((bad+1)); continue; }
   timeout 1500 ./check $prop > out-$id.log 2>&1; rc=$?
-  (cd $R && git checkout -q -- .)
+  (cd $R && git checkout -q -- . && git clean -fdq)
   if [ $rc -eq 1 ]; then ok=$((ok+1)); echo "$id $prop detected"; else bad=$((bad+1)); echo "$id $prop NOT-DETECTED rc=$rc $(grep -E 'INFRA' out-$id.log | head -1 | cut -c1-160)"; fi
 done
 echo "detected=$ok missed=$bad"
